@@ -303,7 +303,6 @@ func runWitnesses(prop string, P *core.Program, R *core.Report) {
 		R.Extra["witness_note"] = "witnesses/index.json unreadable; no sensitivity witnesses replayed"
 		return
 	}
-	c := Get(prop)
 	killed, survived, stale := 0, 0, 0
 	for _, w := range idx {
 		if w.Property != prop {
@@ -326,15 +325,7 @@ func runWitnesses(prop string, P *core.Program, R *core.Report) {
 			R.Witnesses = append(R.Witnesses, res)
 			continue
 		}
-		R2 := core.NewReport(prop, "witness")
-		func() {
-			defer func() {
-				if e := recover(); e != nil {
-					R2.Undecided("analyser-panic", "-", fmt.Sprint(e), "-", "panic")
-				}
-			}()
-			c(P2, R2)
-		}()
+		R2, _ := Decide(prop, "witness", P2, nil)
 		var fired []string
 		hit := false
 		for _, o := range R2.Violations() {
